@@ -84,7 +84,7 @@ class H:
         if k is None:
             k = self.next_k
             self.next_k += 1
-        if ctx not in self.ctxs:
+        if ctx not in self.ctxs and valid and ctx.strip():
             self.ctxs.append(ctx)
         meta = {"kind": "store", "k": k, "type": t, "ctx": ctx, "payload": payload, "valid": valid}
         if stored is not None:
